@@ -97,7 +97,16 @@ func init() {
 func init() {
 	specs["C13"] = &Spec{ID: "C13", Level: "exploration", Parallel: 16,
 		Assumptions: []string{"tz database: the one installed under /usr/share/zoneinfo (fallback: Go's embedded time/tzdata); Go extrapolates a zone's last DST rule to year 9999", "existence of a civil time / of a calendar day in a zone is decided with the UTC->local direction only", hookAssumption + " (GetStatus and Listen clauses)", "two digit system years are taken as 2000..2068"},
-		Plan:        func(tier string) []Batch { return zoneBatches(n(tier, 48, 0), "tz", 20*time.Minute) }}
+		Plan: func(tier string) []Batch {
+			b := zoneBatches(n(tier, 48, 0), "tz", 20*time.Minute)
+			for _, z := range []string{"America/New_York", "Europe/London"}[:n(tier, 1, 2)] {
+				b = append(b, Batch{Mode: "tz", Race: true, Env: []string{"TZ=" + z}, Timeout: 30 * time.Minute, Procs: 8})
+			}
+			for _, z := range []string{"America/Santiago", "Australia/Lord_Howe", "Europe/Dublin"}[:n(tier, 2, 3)] {
+				b = append(b, Batch{Mode: "tz", Env: []string{"TZ=" + z}, Timeout: 30 * time.Minute, Procs: 8}) // multi-processor batches for the concurrent phase
+			}
+			return b
+		}}
 }
 
 func init() {
